@@ -151,7 +151,7 @@ func main() {
 		fmt.Fprintln(os.Stderr, "codec facts:", err)
 		os.Exit(1)
 	}
-	rendered := strings.Replace(a.render(), "\nend Generated\n", renderEffects(files)+codec+"\nend Generated\n", 1)
+	rendered := strings.Replace(a.render(), "\nend Generated\n", renderEffects(files)+renderLockShape(a.fset, files)+codec+"\nend Generated\n", 1)
 	if err := os.WriteFile(*out, []byte(rendered), 0o644); err != nil {
 		fmt.Fprintln(os.Stderr, err)
 		os.Exit(1)
